@@ -569,14 +569,20 @@ def main(argv):
         res_changed, res_refused = residual.changed_files(zv.REPO)
     except Exception as e:
         res_changed, res_refused = [], ["residual: %s" % str(e)[:200]]
-    res_mine = [f for f in res_changed if f in residual.files_of(pid)]
+    res_only, any_change = residual.split(res_changed)
+    res_mine = [f for f in res_only if f in residual.files_of(pid)]
+    src_mine = [f for f in any_change if f in residual.files_of(pid)]
     if update_baseline and not res_refused:
         residual.update(zv.REPO)
-        res_changed, res_mine = [], []
-    if (undecided and not violations) or tier == "thorough" or (res_mine and not violations):
-        why = ("undecided: " + "; ".join(undecided)[:400]) if undecided else (("code under no contract changed in " + ", ".join(res_mine)) if res_mine else "thorough tier")
+        res_mine, src_mine = [], []
+    # the stand-in runs: when the proof is undecided; in the thorough tier; and whenever the program text of a file the
+    # property is anchored in differs from the tree the contracts were written for (a changed tree gets everything we have:
+    # a contract that is too weak to notice a change must not be the last word on it)
+    if (undecided and not violations) or tier == "thorough" or ((res_mine or src_mine) and not violations):
+        why = ("undecided: " + "; ".join(undecided)[:400]) if undecided else (("code under no contract changed in " + ", ".join(res_mine)) if res_mine else (("program text changed in " + ", ".join(src_mine)) if src_mine else "thorough tier"))
         binfo, bfail = bounded_stand_in(pid, seed, why, tier)
     binfo["unverified_code_changed_in"] = res_mine
+    binfo["program_text_changed_in"] = src_mine
 
     # ---- evidence -------------------------------------------------------------------------------
     fns = []
